@@ -147,6 +147,16 @@ def _msg_head(r: ast.Raise) -> str:
     if not isinstance(e, ast.Call):
         return norm(e) if e is not None else "<re-raise>"
     lits = [n for a in list(e.args) + [k.value for k in e.keywords] for n in ast.walk(a) if isinstance(n, ast.Constant) and isinstance(n.value, str) and n.value.strip()]
+    if not lits:
+        # the message was assigned to a local first (``msg = "..."; raise ValueError(msg)``): read the
+        # literal of that local when the function binds it exactly once
+        f = enclosing_function(r)
+        for a in list(e.args) + [k.value for k in e.keywords]:
+            if isinstance(a, ast.Name) and f is not None:
+                binds = [n for n in walk_local(f) if isinstance(n, (ast.Assign, ast.AnnAssign)) and n.value is not None
+                         and any(isinstance(t, ast.Name) and t.id == a.id for t in (n.targets if isinstance(n, ast.Assign) else [n.target]))]
+                if len(binds) == 1:
+                    lits += [n for n in ast.walk(binds[0].value) if isinstance(n, ast.Constant) and isinstance(n.value, str) and n.value.strip()]
     if lits:
         first = min(lits, key=lambda n: (n.lineno, n.col_offset))
         return " ".join(first.value.split())[:48]
@@ -290,6 +300,130 @@ def run(chk) -> None:
     _r04d(chk, w)
     chk.rule("R04e", "every place where the templaters run the user's template code (Jinja parse / render / speculative variant trace, str.format of the python templater) sits in a handler that takes whatever that code can raise and turns it into a templating error (or, for a speculative variant, drops the variant)")
     _r04e(chk)
+    chk.rule("R04f", "outside the rule packages (which convert their own failures) no `next(it)` without a default can let StopIteration escape: the iterator is endless (itertools.count), the call sits in a try that takes StopIteration, or the site is reviewed")
+    chk.rule("R04g", "a tuple-unpacking of a str.split / rsplit result has exactly as many targets as the split can produce: maxsplit == targets - 1 and the separator is known to be present (dominating `sep in s`) or ValueError is handled")
+    _r04f(chk)
+    _r04g(chk)
+
+
+# ---------------------------------------------------------------------------
+# R04f / R04g: two small builtin failure shapes on the linting path
+# ---------------------------------------------------------------------------
+R04FG_SCOPES = ("src/sqlfluff/core/", "src/sqlfluff/api/", "src/sqlfluff/cli/")
+R04F_REVIEWED = {
+    ("src/sqlfluff/core/templaters/jinja.py", "DBTTestExtension.parse", "next(parser.stream)"):
+        "jinja2 extension protocol: parse() is called with the stream on the tag-name token; TokenStream.__next__ returns the current token and never raises "
+        "StopIteration before EOF (at EOF it closes and keeps returning the eof token)",
+}
+
+
+def _in_try_taking(node: ast.AST, names: Set[str]) -> bool:
+    child, par = node, parent(node)
+    while par is not None and not isinstance(par, (ast.FunctionDef, ast.AsyncFunctionDef, ast.Lambda)):
+        if isinstance(par, ast.Try) and any(child is b or any(child is x for x in ast.walk(b)) for b in par.body):
+            for h in par.handlers:
+                if _handler_names(h) & (names | {"Exception", "BaseException"}):
+                    return True
+        child, par = par, parent(par)
+    return False
+
+
+def _r04f(chk) -> None:
+    repo = chk.repo
+    n = n_endless = n_try = n_tab = 0
+    for pre in R04FG_SCOPES:
+        for m in repo.iter_modules(pre):
+            if m.relpath.startswith("src/sqlfluff/core/rules/") and not m.relpath.endswith(("noqa.py", "fix.py", "base.py")):
+                pass
+            for q, f in m.functions():
+                cs = [c for c in calls_in(f) if isinstance(c.func, ast.Name) and c.func.id == "next" and len(c.args) == 1 and not c.keywords]
+                if not cs:
+                    continue
+                cfg = cfg_of(f)
+                for c in cs:
+                    n += 1
+                    a = c.args[0]
+                    endless = False
+                    if isinstance(a, ast.Name):
+                        os_ = origins(cfg, a, cfg.stmt_of(c))
+                        glob = m.defs.get(a.id) if hasattr(m, "defs") else None
+                        exprs = [o.expr for o in os_ if o.kind == "expr"]
+                        if not exprs or any(o.kind == "unknown" for o in os_):
+                            # a module-level name: look at its module-level definition
+                            for st in m.tree.body:
+                                if isinstance(st, ast.Assign) and any(isinstance(t, ast.Name) and t.id == a.id for t in st.targets):
+                                    exprs = [st.value]
+                        endless = bool(exprs) and all(isinstance(e, ast.Call) and (call_name(e) or "").split(".")[-1] in ("count", "cycle", "repeat") for e in exprs)
+                    if endless:
+                        n_endless += 1
+                        continue
+                    if _in_try_taking(c, {"StopIteration"}):
+                        n_try += 1
+                        continue
+                    if (m.relpath, q, norm(c)) in R04F_REVIEWED:
+                        n_tab += 1
+                        continue
+                    chk.fail(
+                        "R04f", c,
+                        f"{q}: `{short(c, 60)}` has no default and no handler: when the iterator is empty StopIteration leaves the function as is (inside a generator it even becomes "
+                        "a RuntimeError) and reaches the caller of lint / fix as a traceback instead of a violation",
+                        detail=f"{q}: {norm(c)[:80]} cannot let StopIteration escape",
+                    )
+    chk.count("R04f.next_without_default", n)
+    chk.count("R04f.endless_iterators", n_endless)
+    chk.count("R04f.in_try", n_try)
+    chk.count("R04f.reviewed", n_tab)
+    chk.floor("R04f.next_without_default", 2)
+
+
+def _r04g(chk) -> None:
+    from ..idioms import conditions_at
+
+    repo = chk.repo
+    n = 0
+    for pre in R04FG_SCOPES:
+        for m in repo.iter_modules(pre):
+            for q, f in m.functions():
+                cfg = None
+                for st in walk_local(f):
+                    if not (isinstance(st, ast.Assign) and len(st.targets) == 1 and isinstance(st.targets[0], (ast.Tuple, ast.List))):
+                        continue
+                    tg = st.targets[0]
+                    if any(isinstance(e, ast.Starred) for e in tg.elts):
+                        continue
+                    v = st.value
+                    # the split call itself, or the single iterable of a generator / comprehension / map over it
+                    sp = None
+                    if isinstance(v, (ast.GeneratorExp, ast.ListComp)) and len(v.generators) == 1 and not v.generators[0].ifs:
+                        v = v.generators[0].iter
+                    elif isinstance(v, ast.Call) and call_name(v) in ("map", "tuple", "list") and v.args:
+                        v = v.args[-1]
+                    if isinstance(v, ast.Call) and isinstance(v.func, ast.Attribute) and v.func.attr in ("split", "rsplit") and not norm(v.func.value).startswith(("os.path", "posixpath", "ntpath")):
+                        sp = v
+                    if sp is None:
+                        continue
+                    n += 1
+                    cfg = cfg or cfg_of(f)
+                    k = len(tg.elts)
+                    sep = sp.args[0] if sp.args else kwarg(sp, "sep")
+                    ms = sp.args[1] if len(sp.args) > 1 else kwarg(sp, "maxsplit")
+                    upper = isinstance(ms, ast.Constant) and ms.value == k - 1
+                    recv = norm(sp.func.value)
+                    lower = False
+                    if sep is not None:
+                        for e, pol in conditions_at(cfg, st):
+                            if pol and isinstance(e, ast.Compare) and len(e.ops) == 1 and isinstance(e.ops[0], ast.In) and norm(e.left) == norm(sep) and norm(e.comparators[0]) == recv:
+                                lower = True
+                    handled = _in_try_taking(st, {"ValueError"})
+                    chk.require(
+                        (upper and lower) or handled, "R04g", st,
+                        f"{q}: `{short(st, 70)}` unpacks into {k} names what "
+                        + ("can be more pieces (no maxsplit of " + str(k - 1) + ")" if not upper else "can be fewer pieces (the separator is not known to be present)")
+                        + ": for such a text the assignment raises ValueError, which nothing on the way to lint / fix converts",
+                        detail=f"{q}: split unpacked into {k} names yields exactly {k} pieces",
+                    )
+    chk.count("R04g.split_unpackings", n)
+    chk.floor("R04g.split_unpackings", 1)
 
 
 # ---------------------------------------------------------------------------
@@ -471,6 +605,12 @@ def _classify(w: World, a: Absorb) -> Tuple[str, str]:
             lists.add(n.func.value.id)
         elif isinstance(n, ast.AugAssign) and isinstance(n.target, ast.Name) and isinstance(n.value, (ast.List, ast.Tuple)) and any(is_carrier(x) for x in n.value.elts):
             lists.add(n.target.id)
+        elif isinstance(n, ast.Call) and isinstance(n.func, ast.Attribute) and n.func.attr == "extend" and len(n.args) == 1 and isinstance(n.args[0], (ast.List, ast.Tuple)) \
+                and any(is_carrier(x) for x in n.args[0].elts) and isinstance(n.func.value, ast.Name):
+            lists.add(n.func.value.id)  # xs.extend([err])
+        elif isinstance(n, ast.Assign) and len(n.targets) == 1 and isinstance(n.targets[0], ast.Name) and isinstance(n.value, ast.BinOp) and isinstance(n.value.op, ast.Add) \
+                and any(isinstance(side, (ast.List, ast.Tuple)) and any(is_carrier(x) for x in side.elts) for side in (n.value.left, n.value.right)):
+            lists.add(n.targets[0].id)  # xs = xs + [err]: the new list is what must be returned
         elif isinstance(n, ast.Return) and n.value is not None:
             for x in ast.walk(n.value):
                 if isinstance(x, (ast.List, ast.Tuple)) and any(is_carrier(y) for y in x.elts) and isinstance(x, ast.List):
@@ -510,6 +650,9 @@ def _classify_skip(w: World, a: Absorb) -> Tuple[str, str]:
     for s in h.body:
         if isinstance(s, ast.AugAssign) and isinstance(s.op, ast.Add) and isinstance(s.target, ast.Attribute):
             return "skip", "counted (C34 R34c checks which counter)"
+        if isinstance(s, ast.Assign) and len(s.targets) == 1 and isinstance(s.targets[0], ast.Attribute) and isinstance(s.value, ast.BinOp) and isinstance(s.value.op, ast.Add) \
+                and norm(s.targets[0]) in (norm(s.value.left), norm(s.value.right)):
+            return "skip", "counted, spelled x = x + 1 (C34 R34c checks which counter)"
         if isinstance(s, (ast.Continue, ast.Break)):
             return "skip", "goes on to the next file"
         if isinstance(s, ast.Raise):
@@ -524,7 +667,42 @@ def _classify_skip(w: World, a: Absorb) -> Tuple[str, str]:
             return "swallowed", "returns a result for the skipped file"
         if isinstance(s, ast.Expr) and isinstance(s.value, ast.Call) and h.name and any(isinstance(x, ast.Name) and x.id == h.name for x in s.value.args) and last_attr(s.value).startswith("_handle"):
             return "skip", "handed to the runners' shared funnel (C24 R24d)"
+    nxt = _falls_through_to(a.func.node, h)
+    if nxt == "loop":
+        return "skip", "goes on to the next file (nothing of the loop body follows the handler)"
+    if nxt == "exit":
+        return "skip", "returns nothing for the file (the function ends after the handler)"
     return "swallowed", "the function goes on and returns a result without tree and without violation for the skipped file"
+
+
+def _falls_through_to(f: ast.AST, h: ast.ExceptHandler) -> Optional[str]:
+    """Where control goes when the handler body ends normally: 'loop' when every such edge leads
+    straight back to the head of the innermost enclosing loop (``try: .. except Skip: log() else:
+    <use the file>``: the same as ``continue``), 'exit' when it leads straight to the normal end of
+    the function, else None."""
+    from ..cfg import Branch, Synthetic
+
+    if not h.body or not isinstance(h.body[-1], (ast.Expr, ast.Assign, ast.AugAssign, ast.AnnAssign, ast.Pass)):
+        return None
+    cfg = cfg_of(f)
+    loop = None
+    p = parent(h)
+    while p is not None and p is not f:
+        if isinstance(p, (ast.For, ast.AsyncFor, ast.While)):
+            loop = p
+            break
+        p = parent(p)
+    kinds = set()
+    for n in cfg.succ.get(h.body[-1], ()):
+        if n is cfg.raise_exit or (isinstance(n, Branch) and isinstance(n.stmt, ast.ExceptHandler)):
+            continue  # where an exception raised by the statement itself would go
+        if loop is not None and n is loop:
+            kinds.add("loop")
+        elif n is cfg.exit:
+            kinds.add("exit")
+        else:
+            return None
+    return kinds.pop() if len(kinds) == 1 else None
 
 
 def _walk_body(body: List[ast.stmt]):
@@ -733,7 +911,20 @@ def _implies_tree(cfg, e: ast.expr, pol: bool, at, depth: int = 0) -> Optional[s
 def _gated(f: ast.AST, call: ast.Call) -> Optional[str]:
     cfg = cfg_of(f)
     st = cfg.stmt_of(call)
-    for e, pol in cfg.conditions(st):
+    facts = list(cfg.conditions(st))
+    # tests inside the statement that must have come out a certain way for the call to be evaluated:
+    # ``<call> if t else x`` / ``x if t else <call>`` / ``t and <call>`` / ``t or <call>``
+    child, p = call, parent(call)
+    while p is not None and child is not st:
+        if isinstance(p, ast.IfExp) and child is not p.test:
+            facts += atoms(p.test, child is p.body)
+        elif isinstance(p, ast.BoolOp) and child in p.values:
+            for v in p.values[: p.values.index(child)]:
+                facts += atoms(v, isinstance(p.op, ast.And))
+        elif isinstance(p, (ast.Lambda, ast.GeneratorExp, ast.ListComp, ast.SetComp, ast.DictComp)):
+            break
+        child, p = p, parent(p)
+    for e, pol in facts:
         why = _implies_tree(cfg, e, pol, st)
         if why:
             return why
@@ -794,15 +985,43 @@ def _limit_guard(chk, w: World, fn: ast.AST, what: str, before: str) -> None:
     """fn: `self.<counter> += ..` then `if self.<limit> > 0 and self.<counter> > self.<limit>: raise <repo error>`
     on every path to ``before`` (the yield / the normal exit)."""
     cfg = cfg_of(fn)
+    # the counter is advanced: ``self.c += k`` or ``self.c = self.c + k``
     incs = [s for s in walk_local(fn) if isinstance(s, ast.AugAssign) and isinstance(s.op, ast.Add) and _self_attr(s.target)]
+    incs += [
+        s for s in walk_local(fn)
+        if isinstance(s, ast.Assign) and len(s.targets) == 1 and _self_attr(s.targets[0]) and isinstance(s.value, ast.BinOp) and isinstance(s.value.op, ast.Add)
+        and _self_attr(s.targets[0]) in (_self_attr(s.value.left), _self_attr(s.value.right))
+    ]
+    inc_target = lambda i: _self_attr(i.target if isinstance(i, ast.AugAssign) else i.targets[0])  # noqa: E731
+
+    def attr_at(x, at) -> Optional[str]:
+        """``self.<attr>`` read directly or through a local that holds exactly that read."""
+        if _self_attr(x):
+            return _self_attr(x)
+        if isinstance(x, ast.Name):
+            os_ = origins(cfg, x, at)
+            if len(os_) == 1 and os_[0].kind == "expr" and not os_[0].path:
+                return _self_attr(os_[0].expr)
+        return None
+
     guards = []
     for s in walk_local(fn):
         if not isinstance(s, ast.If):
             continue
         for e, pol in atoms(s.test, True):
-            if pol and isinstance(e, ast.Compare) and len(e.ops) == 1 and isinstance(e.ops[0], (ast.Gt, ast.GtE)):
-                a, b = _self_attr(e.left), _self_attr(e.comparators[0])
-                inc = [i for i in incs if _self_attr(i.target) == a]
+            if not (pol and isinstance(e, ast.Compare)):
+                continue
+            # every adjacent pair of a (possibly chained, possibly mirrored) comparison: (greater, lesser)
+            terms = [e.left] + list(e.comparators)
+            for op, x, y in zip(e.ops, terms, terms[1:]):
+                if isinstance(op, (ast.Gt, ast.GtE)):
+                    hi, lo = x, y
+                elif isinstance(op, (ast.Lt, ast.LtE)):
+                    hi, lo = y, x
+                else:
+                    continue
+                a, b = _self_attr(hi), attr_at(lo, s)
+                inc = [i for i in incs if inc_target(i) == a]
                 if a and b and inc:
                     guards.append((s, a, b, inc))
     ok_guard = None
@@ -899,15 +1118,29 @@ def _r04c(chk, w: World) -> None:
         good = False
         for r in rets:
             v = r.value
-            if isinstance(v, ast.Tuple) and len(v.elts) == 2 and isinstance(v.elts[1], ast.List) and v.elts[1].elts:
-                x = v.elts[1].elts[0]
-                os_ = origins(cfgT, x, r) if isinstance(x, ast.Name) else [type("O", (), {"expr": x, "kind": "expr"})()]
+            if not (isinstance(v, ast.Tuple) and len(v.elts) == 2):
+                continue
+            # the violations: a list display, directly or through a local holding exactly that display
+            lst, lst_at = v.elts[1], r
+            if isinstance(lst, ast.Name):
+                ls_ = origins(cfgT, lst, r)
+                if len(ls_) == 1 and ls_[0].kind == "expr" and not ls_[0].path and ls_[0].stmt is not None and not any(k != "append" and k != "extend" and k != "augassign" for k, _ in _mutations(PT, lst.id)):
+                    lst, lst_at = ls_[0].expr, ls_[0].stmt
+            if isinstance(lst, ast.List) and lst.elts:
+                x = lst.elts[0]
+                os_ = origins(cfgT, x, lst_at) if isinstance(x, ast.Name) else [type("O", (), {"expr": x, "kind": "expr"})()]
                 if os_ and all(o.kind == "expr" and isinstance(o.expr, ast.Call) and norm(o.expr.func).split(".")[-1] == "SQLParseError" for o in os_):
                     good = True
         chk.require(bool(rets) and good and len(rets) == len([r for r in rets if r.value is not None]), "R04c", pre,
                     "the over-limit branch of _parse_tokens does not return a SQLParseError in its violations: an oversized token stream would be dropped silently (or parsed anyway)",
                     detail="pre-check returns a SQLParseError violation")
     _recursion(chk, w)
+
+
+def _mutations(fn, name):
+    from ..flowutil import mutations_of
+
+    return mutations_of(fn, name)
 
 
 def _narrowed_class(fn: ast.AST, call: ast.Call) -> Optional[str]:
@@ -1164,7 +1397,185 @@ from ..selftest import Variant  # noqa: E402
 LEXER = "src/sqlfluff/core/parser/lexer.py"
 DELIMITED = "src/sqlfluff/core/parser/grammar/delimited.py"
 
+TBASE = "src/sqlfluff/core/templaters/base.py"
+JINJA = JINJA_T
+PYT = PYTHON_T
+_ELSE_OLD = (
+    "                    continue\n"
+    "                else:\n"
+    "                    # Compute a score for the variant based on the size of initially\n"
+    "                    # uncovered literal slices it hits.\n"
+    "                    score = self._calculate_variant_score(\n"
+    "                        raw_sliced=trace.raw_sliced,\n"
+    "                        sliced_file=trace.sliced_file,\n"
+    "                        uncovered_slices=uncovered_slices,\n"
+    "                        original_source_slices=original_source_slices,\n"
+    "                    )\n"
+    "\n"
+    "                    variants[variant_raw_str] = (score, trace, length_deltas)\n"
+)
+_ELSE_NEW = (
+    "                    continue\n"
+    "                # Compute a score for the variant based on the size of initially\n"
+    "                # uncovered literal slices it hits.\n"
+    "                score = self._calculate_variant_score(\n"
+    "                    raw_sliced=trace.raw_sliced,\n"
+    "                    sliced_file=trace.sliced_file,\n"
+    "                    uncovered_slices=uncovered_slices,\n"
+    "                    original_source_slices=original_source_slices,\n"
+    "                )\n"
+    "\n"
+    "                variants[variant_raw_str] = (score, trace, length_deltas)\n"
+)
+
 VARIANTS: List[Variant] = [
+    Variant(
+        "limit-error-anchor-without-default", "src/sqlfluff/core/linter/linter.py",
+        "            anchor = next((seg for seg in tokens if seg.is_code), None)\n",
+        "            anchor = next(seg for seg in tokens if seg.is_code)\n",
+        "R04f", "_parse_tokens", "seeded C04-3 (same shape): a comment-only file that exhausts the node budget", count=2,
+    ),
+    Variant(
+        "noqa-split-without-maxsplit", "src/sqlfluff/core/rules/noqa.py",
+        '                        action, rule_part = comment_remainder.split("=", 1)\n',
+        '                        action, rule_part = (part.strip() for part in comment_remainder.split("="))\n',
+        "R04g", "_parse_noqa", "seeded C04-4: `-- noqa: disable=LT01 until x=1` raises ValueError out of lint",
+    ),
+    Variant(
+        "quiet-noqa-split-keyword-maxsplit", "src/sqlfluff/core/rules/noqa.py",
+        '                        action, rule_part = comment_remainder.split("=", 1)\n',
+        '                        action, rule_part = comment_remainder.split("=", maxsplit=1)\n',
+        "QUIET", None, "R04g: maxsplit by keyword",
+    ),
+    # behaviour-preserving refactors: must stay quiet
+    # ---- R04a ---------------------------------------------------------------------------------
+    Variant("q-parse-error-added-with-augassign", LINTER,
+            "            linter_logger.info(\"PARSING FAILED! : %s\", err)\n            violations.append(err)\n            return None, violations\n",
+            "            linter_logger.info(\"PARSING FAILED! : %s\", err)\n            violations += [err]\n            return None, violations\n",
+            "QUIET", None, "append spelled as += [x]"),
+    Variant("q-lex-error-returned-in-new-list", LINTER,
+            "            linter_logger.info(\"LEXING FAILED! (%s): %s\", templated_file.fname, err)\n            violations.append(err)\n            return None, violations\n",
+            "            linter_logger.info(\"LEXING FAILED! (%s): %s\", templated_file.fname, err)\n            return None, violations + [err]\n",
+            "QUIET", None, "the error is returned in a concatenated list"),
+    Variant("q-templater-error-extend", LINTER,
+            "            templater_violations.append(templater_err)\n",
+            "            templater_violations.extend([templater_err])\n",
+            "QUIET", None, "append spelled as extend([x])"),
+    Variant("q-templater-error-rebuilt-list", LINTER,
+            "            templater_violations.append(templater_err)\n",
+            "            templater_violations = templater_violations + [templater_err]\n",
+            "QUIET", None, "append spelled as x = x + [e]"),
+    Variant("q-templater-error-renamed-and-aliased", LINTER,
+            "        except SQLTemplaterError as templater_err:\n            # Fatal templating error. Capture it and don't generate a variant.\n            templater_violations.append(templater_err)\n",
+            "        except SQLTemplaterError as fatal:\n            # Fatal templating error. Capture it and don't generate a variant.\n            tmp_violation = fatal\n            templater_violations.append(tmp_violation)\n",
+            "QUIET", None, "caught object renamed and passed through a local"),
+    Variant("q-parse-path-skip-with-try-else", LINTER,
+            "            except SQLFluffSkipFile as s:\n                linter_logger.warning(str(s))\n                continue\n            yield self.parse_string(\n                raw_file,\n                fname=fname,\n                config=config,\n                encoding=encoding,\n                parse_statistics=parse_statistics,\n            )\n",
+            "            except SQLFluffSkipFile as s:\n                linter_logger.warning(str(s))\n            else:\n                yield self.parse_string(\n                    raw_file,\n                    fname=fname,\n                    config=config,\n                    encoding=encoding,\n                    parse_statistics=parse_statistics,\n                )\n",
+            "QUIET", None, "continue replaced by try/else: the skipped file still yields nothing"),
+    Variant("q-runner-skip-count-spelled-out", RUNNER,
+            "                linter_logger.warning(str(s))\n                self.skipped_file_count += 1\n",
+            "                linter_logger.warning(str(s))\n                self.skipped_file_count = self.skipped_file_count + 1\n",
+            "QUIET", None, "+= 1 spelled as x = x + 1"),
+    Variant("q-render-command-skip-exit-code-through-local", COMMANDS,
+            "                click.echo(formatter.colorize(str(skip_file_err), Color.red), err=True)\n                sys.exit(EXIT_FAIL)\n            fname = path\n",
+            "                message = formatter.colorize(str(skip_file_err), Color.red)\n                click.echo(message, err=True)\n                sys.exit(EXIT_FAIL)\n            fname = path\n",
+            "QUIET", None, "message through a local"),
+    # ---- R04b ---------------------------------------------------------------------------------
+    Variant("q-stdin-fix-conditional-expression", COMMANDS,
+            "    if result.num_violations(types=SQLLintError, fixable=True) > 0:\n        stdout = result.paths[0].files[0].fix_string()[0]\n    else:\n        stdout = stdin\n",
+            "    stdout = (\n        result.paths[0].files[0].fix_string()[0]\n        if result.num_violations(types=SQLLintError, fixable=True) > 0\n        else stdin\n    )\n",
+            "QUIET", None, "if/else assignment spelled as a conditional expression"),
+    Variant("q-stdin-fix-two-locals", COMMANDS,
+            "    if result.num_violations(types=SQLLintError, fixable=True) > 0:\n        stdout = result.paths[0].files[0].fix_string()[0]\n",
+            "    n_fixable = result.num_violations(types=SQLLintError, fixable=True)\n    has_fixes = n_fixable > 0\n    if has_fixes:\n        linted_file = result.paths[0].files[0]\n        stdout = linted_file.fix_string()[0]\n",
+            "QUIET", None, "count and test through two locals, receiver through a local"),
+    Variant("q-persist-tree-nothing-to-fix-first", LINTED_FILE,
+            "        if self.num_violations(fixable=True, filter_warning=False) > 0:\n            write_buff, success = self.fix_string()\n",
+            "        if 0 < self.num_violations(fixable=True, filter_warning=False):\n            fixed = self.fix_string()\n            write_buff, success = fixed\n",
+            "QUIET", None, "comparison mirrored, result pair through a local"),
+    Variant("q-api-fix-gate-in-boolean-local", SIMPLE,
+            "    if should_fix and result.num_violations(types=SQLLintError, fixable=True) > 0:\n        sql = result.paths[0].files[0].fix_string()[0]\n",
+            "    something_to_fix = result.num_violations(types=SQLLintError, fixable=True) != 0\n    if should_fix and something_to_fix:\n        sql = result.paths[0].files[0].fix_string()[0]\n",
+            "QUIET", None, "count test hoisted into a boolean local, != 0 instead of > 0"),
+    # ---- R04c ---------------------------------------------------------------------------------
+    Variant("q-depth-limit-through-local", CONTEXT,
+            "        if self.max_parse_depth > 0 and self.match_depth > self.max_parse_depth:\n",
+            "        depth_limit = self.max_parse_depth\n        if depth_limit > 0 and self.match_depth > depth_limit:\n",
+            "QUIET", None, "limit read into a local first"),
+    Variant("q-depth-comparison-mirrored", CONTEXT,
+            "        if self.max_parse_depth > 0 and self.match_depth > self.max_parse_depth:\n",
+            "        if 0 < self.max_parse_depth < self.match_depth:\n",
+            "QUIET", None, "the two comparisons as one chained comparison"),
+    Variant("q-depth-increment-spelled-out", CONTEXT,
+            "        self.match_depth += 1\n        if self.max_parse_depth > 0",
+            "        self.match_depth = self.match_depth + 1\n        if self.max_parse_depth > 0",
+            "QUIET", None, "+= 1 spelled as x = x + 1"),
+    Variant("q-node-limit-early-return-when-off", CONTEXT,
+            "        if self.max_parse_nodes > 0 and self.current_parse_nodes > self.max_parse_nodes:\n            raise SQLParseError(\n                f\"Maximum parse node count exceeded (limit {self.max_parse_nodes}). \"\n                \"This may indicate unusually large SQL or a malicious input.\"\n            )\n",
+            "        if self.max_parse_nodes <= 0:\n            return\n        if self.current_parse_nodes > self.max_parse_nodes:\n            raise SQLParseError(\n                f\"Maximum parse node count exceeded (limit {self.max_parse_nodes}). \"\n                \"This may indicate unusually large SQL or a malicious input.\"\n            )\n",
+            "QUIET", None, "switched-off limit leaves early"),
+    Variant("q-node-limit-error-through-local", CONTEXT,
+            "            raise SQLParseError(\n                f\"Maximum parse node count exceeded (limit {self.max_parse_nodes}). \"\n                \"This may indicate unusually large SQL or a malicious input.\"\n            )\n",
+            "            budget_error = SQLParseError(\n                f\"Maximum parse node count exceeded (limit {self.max_parse_nodes}). \"\n                \"This may indicate unusually large SQL or a malicious input.\"\n            )\n            raise budget_error\n",
+            "QUIET", None, "error object built into a local, then raised"),
+    Variant("q-precheck-error-list-through-local", LINTER,
+            "            linter_logger.info(\"PARSING SKIPPED! : %s\", err)\n            return None, [err]\n",
+            "            linter_logger.info(\"PARSING SKIPPED! : %s\", err)\n            too_many = [err]\n            return None, too_many\n",
+            "QUIET", None, "the returned violations list through a local"),
+    Variant("q-precheck-token-count-through-local", LINTER,
+            "        if max_parse_nodes > 0 and len(tokens) > max_parse_nodes:\n",
+            "        n_tokens = len(tokens)\n        if max_parse_nodes > 0 and n_tokens > max_parse_nodes:\n",
+            "QUIET", None, "token count through a local"),
+    Variant("q-parser-seed-count-through-local", PARSER,
+            "        ctx.seed_parse_nodes(len(segments))\n",
+            "        n_segments = len(segments)\n        ctx.seed_parse_nodes(n_segments)\n",
+            "QUIET", None, "seed count through a local"),
+    # ---- R04d ---------------------------------------------------------------------------------
+    Variant("q-builtin-raise-message-through-local", TBASE,
+            "            raise ValueError(\"Position Not Found\")\n",
+            "            msg = \"Position Not Found\"\n            raise ValueError(msg)\n",
+            "QUIET", None, "message literal assigned first (flake8-errmsg style)", count=1),
+    # ---- R04e ---------------------------------------------------------------------------------
+    Variant("q-jinja-variant-trace-try-without-else", JINJA, _ELSE_OLD, _ELSE_NEW,
+            "QUIET", None, "else-arm dedented after a handler that always continues"),
+    Variant("q-jinja-render-error-through-local", JINJA,
+            "            templater_logger.info(\"Unrecoverable Jinja Error: %s\", err, exc_info=True)\n            raise SQLTemplaterError(\n                (\n                    \"Unrecoverable failure in Jinja templating: {}. Have you \"\n                    \"correctly configured your variables? \"\n                    \"https://docs.sqlfluff.com/en/latest/perma/variables.html\"\n                ).format(err),\n",
+            "            templater_logger.info(\"Unrecoverable Jinja Error: %s\", err, exc_info=True)\n            message = (\n                \"Unrecoverable failure in Jinja templating: {}. Have you \"\n                \"correctly configured your variables? \"\n                \"https://docs.sqlfluff.com/en/latest/perma/variables.html\"\n            ).format(err)\n            raise SQLTemplaterError(\n                message,\n",
+            "QUIET", None, "message through a local"),
+    Variant("q-python-format-handler-types-reordered", PYT,
+            "            except (AttributeError, IndexError, TypeError, ValueError) as err:\n                # A field which the context cannot satisfy",
+            "            except (ValueError, TypeError, IndexError, AttributeError) as format_err:\n                err = format_err\n                # A field which the context cannot satisfy",
+            "QUIET", None, "tuple of types reordered, caught object renamed"),
+    # breaking twins in the spellings the QUIET sweep taught the rules to read
+    Variant("templater-error-added-to-a-list-nobody-returns", LINTER,
+            "            templater_violations.append(templater_err)\n",
+            "            seen_errors = templater_violations + [templater_err]\n            linter_logger.info(\"templating failed: %s\", seen_errors)\n",
+            "R04a", "render_string", "x = y + [e] into a list that is only logged"),
+    Variant("parse-path-skip-falls-through-to-the-yield", LINTER,
+            "            except SQLFluffSkipFile as s:\n                linter_logger.warning(str(s))\n                continue\n            yield self.parse_string(\n",
+            "            except SQLFluffSkipFile as s:\n                linter_logger.warning(str(s))\n                raw_file, config, encoding = \"\", self.config, \"utf8\"\n            yield self.parse_string(\n",
+            "R04a", "parse_path", "the handler falls through into the rest of the loop body: a result for the skipped file"),
+    Variant("stdin-fix-conditional-expression-arms-swapped", COMMANDS,
+            "    if result.num_violations(types=SQLLintError, fixable=True) > 0:\n        stdout = result.paths[0].files[0].fix_string()[0]\n    else:\n        stdout = stdin\n",
+            "    stdout = (\n        stdin\n        if result.num_violations(types=SQLLintError, fixable=True) > 0\n        else result.paths[0].files[0].fix_string()[0]\n    )\n",
+            "R04b", "_stdin_fix", "the sink sits in the arm taken when there is nothing to fix"),
+    Variant("depth-limit-through-local-dead-counter", CONTEXT,
+            "        if self.max_parse_depth > 0 and self.match_depth > self.max_parse_depth:\n",
+            "        depth_limit = self.max_parse_depth\n        if depth_limit > 0 and self.parse_depth > depth_limit:\n",
+            "R04c", "deeper_match", "limit through a local, compared with a counter that is never advanced"),
+    Variant("depth-chained-comparison-wrong-way", CONTEXT,
+            "        if self.max_parse_depth > 0 and self.match_depth > self.max_parse_depth:\n",
+            "        if 0 < self.match_depth < self.max_parse_depth:\n",
+            "R04c", "deeper_match", "chained comparison raises below the limit and never above it"),
+    Variant("precheck-error-list-through-local-empty", LINTER,
+            "            linter_logger.info(\"PARSING SKIPPED! : %s\", err)\n            return None, [err]\n",
+            "            linter_logger.info(\"PARSING SKIPPED! : %s\", err)\n            too_many = []\n            return None, too_many\n",
+            "R04c", "_parse_tokens", "the list through a local, without the error"),
+    Variant("assert-turned-into-raise-message-through-local", LINTER,
+            "            assert segments, \"The token sequence should never be empty.\"\n",
+            "            if not segments:\n                msg = \"The token sequence should never be empty.\"\n                raise ValueError(msg)\n",
+            "R04d", "_lex_templated_file", "new unhandled ValueError, message assigned first"),
     Variant("jinja-variant-handler-narrowed", "src/sqlfluff/core/templaters/jinja.py",
             "                except Exception:\n",
             "                except (TemplateError, TypeError, ValueError):\n",
